@@ -103,4 +103,11 @@ def extra_paths(root: Node, spec: dict[Path, tuple[int, int]], rng, k: int = 6) 
             other = rng.choice(keys)
             if other:
                 out.append(p + (other[-1],))
+    # every repeated item: the index at its count, one beyond and far beyond (all must be refused)
+    arrays = [p for p in keys if p + (0,) in spec]
+    for p in arrays[:4]:
+        n = 0
+        while p + (n,) in spec:
+            n += 1
+        out += [p + (n,), p + (n + 1,), p + (n + rng.randint(2, 40),)]
     return [p for p in out if p not in spec]
